@@ -23,7 +23,17 @@ fn item_msg(id: i64, kind: char, tok: u64, uris: &[Vec<u8>]) -> Vec<u8> {
         'r' => c(TagClass::Application, 19, if uris.is_empty() { vec![octets(format!("ldap://t{}", tok).as_bytes())] } else { uris.iter().map(|u| octets(u)).collect() }),
         _ => c(TagClass::Application, 25, vec![p(TagClass::Context, 0, b"1.2.3"), p(TagClass::Context, 1, tok.to_string().as_bytes())]),
     };
-    enc(&message(id, op, None))
+    // per-item controls: an item with token t carries t mod 3 controls (1.2.0, 1.2.1): whoever is handed the item must be handed them
+    let nc = (tok % 3) as usize;
+    enc(&message(id, op, if nc == 0 { None } else { Some((0..nc).map(|k| control(format!("1.2.{}", k).as_bytes(), None, None)).collect()) }))
+}
+/// the controls that came with an item, against what the scripted server attached to it
+fn item_ctrls_ok(re: &ResultEntry, shown: &str) -> Option<String> {
+    if !(shown.starts_with('e') || shown.starts_with('i')) { return None; }
+    let tok: u64 = shown[1..].parse().ok()?;
+    let want: Vec<String> = (0..(tok % 3)).map(|k| format!("1.2.{}", k)).collect();
+    let got: Vec<String> = re.1.iter().map(|c| c.1.ctype.clone()).collect();
+    if got != want { Some(format!("item {} was sent with controls {:?} but was handed over with {:?}", shown, want, got)) } else { None }
 }
 fn show_entry(re: &ResultEntry) -> String {
     let num = |s: &str| -> String { s.trim_start_matches(|ch: char| !ch.is_ascii_digit()).to_string() };
@@ -127,12 +137,13 @@ async fn run_stream(args: &[String]) -> (String, Option<String>) {
         }
         return match outcome {
             Some(Ok(sr)) => { let out = format!("entries=[{}] {}", sr.0.iter().map(show_entry).collect::<Vec<_>>().join(","), show_res(&sr.1));
+                let ctl_problem = sr.0.iter().find_map(|re| item_ctrls_ok(re, &show_entry(re)));
                 // oracle: entries in order, reference URIs merged into the result, intermediates dropped
                 let want_e: Vec<String> = expect_items.iter().filter(|x| x.starts_with('e')).cloned().collect();
                 let f: Vec<&str> = expect_res.split('|').collect();
                 let mut want_refs: Vec<String> = if f[1].is_empty() { vec![] } else { f[1].split(',').map(|x| x.to_string()).collect() }; want_refs.extend(all_refs.clone());
                 let want = format!("entries=[{}] res({},[{}],{})", want_e.join(","), f[0], want_refs.join(","), f[2]);
-                let o = if want != out { Some(format!("search() must return {} but returned {}", crate::lanes::ber::clip(&want), crate::lanes::ber::clip(&out))) } else { None };
+                let o = if want != out { Some(format!("search() must return {} but returned {}", crate::lanes::ber::clip(&want), crate::lanes::ber::clip(&out))) } else { ctl_problem };
                 (out, o) }
             Some(Err(e)) => (format!("err:{}", err_class(&e)), Some("search() failed on a well-formed server script".into())),
             None => ("hang".into(), Some("search() did not complete".into())),
@@ -150,7 +161,7 @@ async fn run_stream(args: &[String]) -> (String, Option<String>) {
     for ch in args[2].chars() {
         match ch {
             'n' => { let r = { let fut = st.next(); tokio::pin!(fut); let mut x = None; for _ in 0..2000 { if let Some(v) = futures_util::FutureExt::now_or_never(&mut fut) { x = Some(v); break; } tokio::task::yield_now().await; } x };
-                let s = match r { None => "pending".to_string(), Some(Ok(Some(re))) => show_entry(&re), Some(Ok(None)) => "none".into(), Some(Err(_)) => "err".into() };
+                let s = match r { None => "pending".to_string(), Some(Ok(Some(re))) => { let sh = show_entry(&re); if let Some(w) = item_ctrls_ok(&re, &sh) { oracle.get_or_insert(w); } sh } Some(Ok(None)) => "none".into(), Some(Err(_)) => "err".into() };
                 let want = if closed || read_to_end { "none".to_string() } else if given < visible.len() { given += 1; visible[given - 1].clone() } else { read_to_end = true; "none".into() };
                 if s != want { oracle.get_or_insert(format!("next() must yield {} here but yielded {}", want, s)); }
                 outs.push(s); }
